@@ -135,6 +135,18 @@ CHECKS = {
             "TLC requires the strict text+data fixed point for native inputs, stability from the first re-parse for foreign "
             "ones, and that the rendered text - read by the specification - is native and means what the input meant.",
             "7 (C06)"),
+    "C07": ("model_checking",
+            "TLA+ spec (Config: sections, Extract, MembersFor) model-checked by TLC for insensitivity to unrelated sections; "
+            "TLC-enumerated and random configurations rendered to text and run through acls()/addrgroups(); results "
+            "validated by TLC, which classifies the sections from their tokens itself",
+            "TLC checks on all configurations of <= 4 sections over an alphabet (two ACLs, a group defined once or twice, "
+            "interfaces binding different ACLs in/out, noise) that extraction is unchanged by swapping unrelated sections and "
+            "inserting noise, returns each list once and honours the name filter; every printed configuration and seeded "
+            "random configurations of 3..14 shuffled sections are rendered with indentation 1..3 and comment lines on both "
+            "platforms and passed to acls() (all / name filters) and addrgroups(); TLC (Trace_C07) compares names, types, "
+            "entries in configuration order (by meaning), inbound/outbound interface sets and attached group members "
+            "(IOS members read as net masks) with Config.Extract.",
+            "7 (C07)"),
 }
 
 NOT_YET = {
